@@ -12,6 +12,8 @@ from __future__ import annotations
 
 import re
 
+import os
+
 import numpy as np
 
 from rtm import core, sas
@@ -31,7 +33,7 @@ ASSUMPTIONS = [
     "the harness tokenizer follows C preprocessing-number rules",
 ]
 REQUIRED_MONITORS = ["only_documented_tokens_change", "float_size_line", "builds_and_agrees_with_double",
-                     "spelling_selects_type"]
+                     "spelling_selects_type", "every_part_has_requested_dtype"]
 REQUIRED_BUCKETS = {"quick": ["a:float32", "a:float64", "a:longdouble", "b:fragment", "c:float32", "c:longdouble",
                               "d:spelling", "frag:adjacent-double", "frag:string", "frag:hexfloat", "frag:suffixed",
                               "frag:int-promotion", "frag:exponent-identifier"]}
@@ -269,6 +271,8 @@ def gen_cases(tier, seed):
         cases.append({"id": "build128/" + m, "kind": "build", "model": m, "dtype": "longdouble", "seed": seed,
                       "group": "b-" + m, "cost": 2})
     cases.append({"id": "spellings", "kind": "spell", "group": "spell", "cost": 5})
+    for e in COMPOSITES:
+        cases.append({"id": "composite/" + e, "kind": "composite", "expr": e, "group": "comp-" + e, "cost": 4})
     return cases
 
 
@@ -375,8 +379,50 @@ def run_spell(case, rec):
     rec.bucket("d:spelling")
 
 
+COMPOSITES = ["sphere@hardsphere", "cylinder@squarewell", "sphere+cylinder", "sphere*line", "ellipsoid@squarewell+sphere",
+              "core_shell_sphere@stickyhardsphere"]
+
+
+def _leaves(model):
+    if hasattr(model, "P") and hasattr(model, "S") and model.P is not None:
+        return _leaves(model.P) + _leaves(model.S)
+    if hasattr(model, "parts"):
+        out = []
+        for part in model.parts:
+            out += _leaves(part)
+        return out
+    return [model]
+
+
+def run_composite(case, rec):
+    """The precision request reaches every compiled part of a composite model."""
+    from sasmodels import core as sascore, direct_model
+    expr = case["expr"]
+    for spelling, size in (("single!", 4), ("quad!", 16), ("double!", 8), ("float32", 4), ("longdouble", 16), ("single", 4)):
+        model = sascore.load_model(expr, dtype=spelling, platform="dll")
+        got = []
+        for leaf in _leaves(model):
+            if hasattr(leaf, "dllpath"):
+                got.append((leaf.info.id, np.dtype(leaf.dtype).itemsize, os.path.basename(leaf.dllpath)))
+        pre = {4: "sas32_", 8: "sas64_", 16: "sas128_"}[size]
+        ok = bool(got) and all(sz == size and dll.startswith(pre) for _, sz, dll in got) and np.dtype(model.dtype).itemsize == size
+        rec.check("every_part_has_requested_dtype", ok,
+                  None if ok else {"expression": expr, "spelling": spelling, "expected_itemsize": size,
+                                   "composite_dtype": str(model.dtype), "parts": got})
+        if size == 4:
+            # the single-precision composite agrees with double to single precision and is not the double result
+            q = [np.array([0.011, 0.043, 0.17])]
+            I4 = np.asarray(direct_model.call_kernel(model.make_kernel(q), {}), float)
+            m8 = sascore.load_model(expr, dtype="double!", platform="dll")
+            I8 = np.asarray(direct_model.call_kernel(m8.make_kernel(q), {}), float)
+            rec.check("builds_and_agrees_with_double", core.close(I4, I8, 2e-3, 1e-6*float(np.max(np.abs(I8)))),
+                      {"expression": expr, "single": I4, "double": I8})
+        rec.bucket("composite:" + spelling)
+    rec.set_shape(("composite", expr), True)
+
+
 def run_case(case, rec):
-    {"src": run_src, "frag": run_frag, "build": run_build, "spell": run_spell}[case["kind"]](case, rec)
+    {"src": run_src, "frag": run_frag, "build": run_build, "spell": run_spell, "composite": run_composite}[case["kind"]](case, rec)
 
 
 def classify(case, v):
